@@ -83,8 +83,8 @@ func (r *Result) Violate(caseID, sig, detail string, replay interface{}) {
 	defer r.mu.Unlock()
 	r.Events["violations"]++
 	if len(r.Violations) < r.maxViol {
-		if len(detail) > 4000 {
-			detail = detail[:4000] + "...(truncated)"
+		if len(detail) > 9000 {
+			detail = detail[:2000] + "\n...(truncated)...\n" + detail[len(detail)-7000:]
 		}
 		r.Violations = append(r.Violations, Violation{caseID, sig, detail, replay})
 	}
